@@ -1,6 +1,7 @@
 import CatiiProofs.IIndexShift
 import CatiiProofs.IIndexWf
 import CatiiProofs.Append
+import CatiiProofs.Filtered
 import CatiiProofs.FromArray
 /-!
 # C07 — every operation preserves index well-formedness
@@ -11,7 +12,7 @@ coordinates within the shape, no row under two values of the same column.  `wf` 
 version the harness evaluates on every real result; `wf_sound` ties the two.
 
 **Partial**: preservation is proved for `shift_common` (any value, and the library-chosen one),
-`copy`, `append` (any operands with the same higher shape whose rows fit 32 bits) and construction
+`copy`, `append` (any operands with the same higher shape whose rows fit 32 bits), `filtered` (any mask) and construction
 from arrays (`CatiiProps/C01`); for the other operations it is checked after every step of every generated history
 on the real code (`validate(True)` plus the range / arity / non-emptiness conditions) and on the
 model (`wf`), but is not yet a theorem.
@@ -31,6 +32,11 @@ theorem shift_common_preserves_partial (i : IIndex) (h : WF i) (hnd : i.ndim ≤
 theorem append_preserves_partial (i other : IIndex) (ok : AppendOK i other) (hnd : i.ndim ≤ 2)
     (r : IIndex) (hr : append i other = .ok r) : WF r :=
   (append_refines ok hnd r hr).1
+
+/-- `filtered(mask, new_length)` preserves well-formedness, for any mask -/
+theorem filtered_preserves_partial (i : IIndex) (mask : List Bool) (n' : Nat) (ok : FilterOK i mask n')
+    (hnd : i.ndim ≤ 2) (r : IIndex) (hr : filtered i mask n' = .ok r) : WF r :=
+  (filtered_refines ok hnd r hr).1
 
 /-- consequence named by the property: after re-encoding nothing is listed under the common value
 and no entry is empty, so the set of listed values contains no category that occurs nowhere -/
